@@ -46,6 +46,12 @@ def generate(seed, tier, index):
         j = rf.randint(0, len(case["scripts"]) - 1)
         lt["episodes"].append({"obj": 2, "new": True, "kind": case["meta"]["kinds"][j], "via": "LibRDEngine", "script": j,
                                "ops": [["setup_batch", [rf.bits(31) for _ in range(rf.randint(1, 6))]]]})
+    if rf.chance(0.35) and lt["episodes"]:
+        # the library's own driver loop (set-up, run slices, output, finalize) with its progress line switched on
+        j = rf.randint(0, len(case["scripts"]) - 1)
+        lt["episodes"].append({"obj": 2, "new": True, "kind": case["meta"]["kinds"][j], "via": rf.choice(["LibRDEngine", "factory"]),
+                               "script": j, "ops": [["simulate_script", {"slices": [rf.randint(1, 5), rf.randint(1, 5)], "ms": 1000,
+                                                                           "progress": rf.chance(0.7)}]]})
     return case
 
 
